@@ -56,6 +56,35 @@ func runC08(c *Ctx) {
 	}
 	L.Floor("rng-in-goroutine", 2, "producer + workers")
 
+	// (a') every Lock is released on every path (a worker that keeps the mutex blocks all others and wg.Wait forever)
+	L.Rule("lock-released", "in DistMatrix and each of its closures, every mux.Lock() is followed by mux.Unlock() on every path before the function returns or starts its next loop iteration (a continue/return between Lock and Unlock leaves the mutex held)")
+	for _, g := range withAnons(r.F) {
+		var locks []ssa.Instruction
+		allInstrs(g, func(in ssa.Instruction) {
+			if cc := callOf(in); cc != nil && isSyncMethod(cc, "Mutex", "Lock") {
+				if _, isDefer := in.(*ssa.Defer); !isDefer {
+					locks = append(locks, in)
+				}
+			}
+		})
+		for _, lk := range locks {
+			isUnlock := func(in ssa.Instruction) bool {
+				cc := callOf(in)
+				return cc != nil && isSyncMethod(cc, "Mutex", "Unlock")
+			}
+			ok := lockReleasedBeforeNextLock(g, lk, isUnlock)
+			name := "mux.Lock in " + c.P.FuncName(g)
+			if ok {
+				L.OK("lock-released", r.label, name, c.P.Pos(lk.Pos()), "every path from this Lock reaches Unlock before a return or another Lock")
+			} else {
+				L.Bad("lock-released", r.label, name, c.P.Pos(lk.Pos()), "a path from this Lock reaches a return, the next loop iteration's Lock, or the end of the goroutine without Unlock: the other workers block on the mutex and DistMatrix never returns")
+			}
+		}
+	}
+	L.Floor("lock-released", 2, "setErr and the worker's max/uncompute section")
+	c.checkWeightedAccumulation("weighted-accumulation")
+	L.Floor("weighted-accumulation", 12, "accumulations in the five counters and probaNt")
+
 	c.checkErrorStoredWhereProduced(r)
 	c.checkWorkerAccumulations(r)
 	L.Note("function analysed: %s with %d closures", r.label, len(r.F.AnonFuncs))
@@ -381,4 +410,60 @@ func (c *Ctx) collectionConsumedOrderFree(info *types.Info, file *ast.File, decl
 		return false, "the slice filled in arrival order is " + other
 	}
 	return true, fmt.Sprintf("appended in arrival order, consumed by %d loop(s) that only write per-item cells", found)
+}
+
+// lockReleasedBeforeNextLock: forward search from the Lock: every path hits an
+// Unlock before it hits a Return, a RunDefers without deferred unlock, or the
+// same/another Lock.
+func lockReleasedBeforeNextLock(fn *ssa.Function, lock ssa.Instruction, isUnlock func(ssa.Instruction) bool) bool {
+	type pt struct {
+		b *ssa.BasicBlock
+		i int
+	}
+	seen := map[*ssa.BasicBlock]bool{}
+	ok := true
+	var walk func(b *ssa.BasicBlock, start int)
+	walk = func(b *ssa.BasicBlock, start int) {
+		for i := start; i < len(b.Instrs); i++ {
+			in := b.Instrs[i]
+			if isUnlock(in) {
+				if _, isDefer := in.(*ssa.Defer); !isDefer {
+					return
+				}
+			}
+			if cc := callOf(in); cc != nil && isSyncMethod(cc, "Mutex", "Lock") && in != lock {
+				ok = false
+				return
+			}
+			if in == lock && !(b == lock.Block() && i == start-1) {
+				ok = false // came around a loop back to the Lock while holding it
+				return
+			}
+			if _, isRet := in.(*ssa.Return); isRet {
+				ok = false
+				return
+			}
+		}
+		for _, s := range b.Succs {
+			if s == lock.Block() {
+				// re-entering the lock's block from its start: scan up to the lock
+				for i := 0; i < len(s.Instrs); i++ {
+					if isUnlock(s.Instrs[i]) {
+						goto next
+					}
+					if s.Instrs[i] == lock {
+						ok = false
+						goto next
+					}
+				}
+			}
+			if !seen[s] {
+				seen[s] = true
+				walk(s, 0)
+			}
+		next:
+		}
+	}
+	walk(lock.Block(), indexIn(lock.Block(), lock)+1)
+	return ok
 }
